@@ -589,4 +589,11 @@ def instances(tier, seed):
                                 "profiles of length %d over {-2,-1,0,1}" % n, weight=n))
         out.append(Instance("truncation_flags[%d]" % n, h_truncation_flags(n), [C + "left_truncated", C + "right_truncated"],
                             "profiles of length %d" % n, weight=n))
+    # the profile constructors are pure: a second read through the same constructor gets the profile a fresh one gives (shared with C13)
+    from props import c13
+    for locus in (["skip+alt"] if q else sorted(c13.LOCI)):
+        out.append(Instance("read_profile_history[%s]" % locus, c13.h_profile_history(locus, 6),
+                            ["src.long_read_profiles:CombinedProfileConstructor.construct_profiles",
+                             "src.long_read_profiles:OverlappingFeaturesProfileConstructor.construct_profile_for_features"],
+                            "locus %s, two reads with the same span through one constructor" % locus, weight=400, budget_s=900))
     return out
